@@ -2663,11 +2663,10 @@ fn eval_built_in_call(
                 arg_values,
             )?;
 
-            let mut saved_values = vec![];
+            let mut saved_values = vec![receiver_value.clone()];
             for value in arg_values.iter().rev() {
                 saved_values.push(value.clone());
             }
-            saved_values.push(receiver_value.clone());
 
             let s = check_string(&arg_values[0], &arg_positions[0], saved_values, env)?;
             match &session.stdout_stderr_mode {
@@ -2712,11 +2711,10 @@ fn eval_built_in_call(
                 arg_values,
             )?;
 
-            let mut saved_values = vec![];
+            let mut saved_values = vec![receiver_value.clone()];
             for value in arg_values.iter().rev() {
                 saved_values.push(value.clone());
             }
-            saved_values.push(receiver_value.clone());
 
             let s = check_string(&arg_values[0], &arg_positions[0], saved_values, env)?;
             match &session.stdout_stderr_mode {
@@ -2763,11 +2761,10 @@ fn eval_built_in_call(
                 arg_values,
             )?;
 
-            let mut saved_values = vec![];
+            let mut saved_values = vec![receiver_value.clone()];
             for value in arg_values.iter().rev() {
                 saved_values.push(value.clone());
             }
-            saved_values.push(receiver_value.clone());
 
             let s = check_string(&arg_values[0], &arg_positions[0], saved_values, env)?;
             match &session.stdout_stderr_mode {
@@ -2811,11 +2808,10 @@ fn eval_built_in_call(
                 arg_values,
             )?;
 
-            let mut saved_values = vec![];
+            let mut saved_values = vec![receiver_value.clone()];
             for value in arg_values.iter().rev() {
                 saved_values.push(value.clone());
             }
-            saved_values.push(receiver_value.clone());
 
             let s = check_string(&arg_values[0], &arg_positions[0], saved_values, env)?;
             match &session.stdout_stderr_mode {
@@ -2886,11 +2882,10 @@ fn eval_built_in_call(
         }
         BuiltInFunctionKind::ShellRun => {
             if env.enforce_sandbox {
-                let mut saved_values = vec![];
+                let mut saved_values = vec![receiver_value.clone()];
                 for value in arg_values.iter().rev() {
                     saved_values.push(value.clone());
                 }
-                saved_values.push(receiver_value.clone());
 
                 return Err((
                     RestoreValues(saved_values),
@@ -2909,11 +2904,10 @@ fn eval_built_in_call(
                 arg_values,
             )?;
 
-            let mut saved_values = vec![];
+            let mut saved_values = vec![receiver_value.clone()];
             for value in arg_values.iter().rev() {
                 saved_values.push(value.clone());
             }
-            saved_values.push(receiver_value.clone());
 
             let s = check_string(&arg_values[0], &arg_positions[0], saved_values, env)?;
             match as_string_list(&arg_values[1]) {
@@ -2954,11 +2948,10 @@ fn eval_built_in_call(
                     }
                 }
                 Err(v) => {
-                    let mut saved_values = vec![];
+                    let mut saved_values = vec![receiver_value.clone()];
                     for value in arg_values.iter().rev() {
                         saved_values.push(value.clone());
                     }
-                    saved_values.push(receiver_value.clone());
 
                     let message = format_type_error(
                         &TypeName {
@@ -3066,11 +3059,10 @@ fn eval_built_in_call(
                 ..
             } = arg_values[0].as_ref()
             else {
-                let mut saved_values = vec![];
+                let mut saved_values = vec![receiver_value.clone()];
                 for value in arg_values.iter().rev() {
                     saved_values.push(value.clone());
                 }
-                saved_values.push(receiver_value.clone());
 
                 let message = format_type_error(
                     &TypeName {
@@ -3122,11 +3114,10 @@ fn eval_built_in_call(
                 arg_values,
             )?;
 
-            let mut saved_values = vec![];
+            let mut saved_values = vec![receiver_value.clone()];
             for value in arg_values.iter().rev() {
                 saved_values.push(value.clone());
             }
-            saved_values.push(receiver_value.clone());
 
             let type_name = check_string(&arg_values[0], &arg_positions[0], saved_values, env)?;
 
@@ -3153,11 +3144,10 @@ fn eval_built_in_call(
         }
         BuiltInFunctionKind::FsListDirectory => {
             if env.enforce_sandbox {
-                let mut saved_values = vec![];
+                let mut saved_values = vec![receiver_value.clone()];
                 for value in arg_values.iter().rev() {
                     saved_values.push(value.clone());
                 }
-                saved_values.push(receiver_value.clone());
 
                 return Err((
                     RestoreValues(saved_values),
@@ -3179,10 +3169,9 @@ fn eval_built_in_call(
             let path_s = match unwrap_path(&arg_values[0], env) {
                 Ok(s) => s,
                 Err(msg) => {
-                    let mut saved_values = vec![];
+                    let mut saved_values = vec![receiver_value.clone()];
                     for value in arg_values.iter().rev() {
                         saved_values.push(value.clone());
-                        saved_values.push(receiver_value.clone());
                     }
                     return Err((
                         RestoreValues(saved_values),
@@ -3286,11 +3275,10 @@ fn eval_built_in_call(
                 arg_values,
             )?;
 
-            let mut saved_values = vec![];
+            let mut saved_values = vec![receiver_value.clone()];
             for value in arg_values.iter().rev() {
                 saved_values.push(value.clone());
             }
-            saved_values.push(receiver_value.clone());
 
             let env_var_name = check_string(&arg_values[0], &arg_positions[0], saved_values, env)?;
 
@@ -3362,10 +3350,9 @@ fn eval_built_in_call(
             let path_s = match unwrap_path(&arg_values[0], env) {
                 Ok(s) => s,
                 Err(msg) => {
-                    let mut saved_values = vec![];
+                    let mut saved_values = vec![receiver_value.clone()];
                     for value in arg_values.iter().rev() {
                         saved_values.push(value.clone());
-                        saved_values.push(receiver_value.clone());
                     }
                     return Err((
                         RestoreValues(saved_values),
@@ -3406,11 +3393,10 @@ fn eval_built_in_call(
         }
         BuiltInFunctionKind::FsWriteFile => {
             if env.enforce_sandbox {
-                let mut saved_values = vec![];
+                let mut saved_values = vec![receiver_value.clone()];
                 for value in arg_values.iter().rev() {
                     saved_values.push(value.clone());
                 }
-                saved_values.push(receiver_value.clone());
 
                 return Err((
                     RestoreValues(saved_values),
@@ -3429,21 +3415,19 @@ fn eval_built_in_call(
                 arg_values,
             )?;
 
-            let mut saved_values = vec![];
+            let mut saved_values = vec![receiver_value.clone()];
             for value in arg_values.iter().rev() {
                 saved_values.push(value.clone());
             }
-            saved_values.push(receiver_value.clone());
 
             let content_s = check_string(&arg_values[0], &arg_positions[0], saved_values, env)?;
 
             let path_s = match unwrap_path(&arg_values[1], env) {
                 Ok(s) => s,
                 Err(msg) => {
-                    let mut saved_values = vec![];
+                    let mut saved_values = vec![receiver_value.clone()];
                     for value in arg_values.iter().rev() {
                         saved_values.push(value.clone());
-                        saved_values.push(receiver_value.clone());
                     }
                     return Err((
                         RestoreValues(saved_values),
@@ -3476,11 +3460,10 @@ fn eval_built_in_call(
         }
         BuiltInFunctionKind::FsWriteBytes => {
             if env.enforce_sandbox {
-                let mut saved_values = vec![];
+                let mut saved_values = vec![receiver_value.clone()];
                 for value in arg_values.iter().rev() {
                     saved_values.push(value.clone());
                 }
-                saved_values.push(receiver_value.clone());
 
                 return Err((
                     RestoreValues(saved_values),
@@ -3502,11 +3485,10 @@ fn eval_built_in_call(
             let items = match arg_values[0].as_ref() {
                 Value_::List { items, .. } => items.clone(),
                 _ => {
-                    let mut saved_values = vec![];
+                    let mut saved_values = vec![receiver_value.clone()];
                     for value in arg_values.iter().rev() {
                         saved_values.push(value.clone());
                     }
-                    saved_values.push(receiver_value.clone());
 
                     return Err((
                         RestoreValues(saved_values),
@@ -3529,11 +3511,10 @@ fn eval_built_in_call(
                 let i = match item.as_ref() {
                     Value_::Int(i) => *i,
                     _ => {
-                        let mut saved_values = vec![];
+                        let mut saved_values = vec![receiver_value.clone()];
                         for value in arg_values.iter().rev() {
                             saved_values.push(value.clone());
                         }
-                        saved_values.push(receiver_value.clone());
 
                         return Err((
                             RestoreValues(saved_values),
@@ -3550,11 +3531,10 @@ fn eval_built_in_call(
                 };
 
                 if !(0..=255).contains(&i) {
-                    let mut saved_values = vec![];
+                    let mut saved_values = vec![receiver_value.clone()];
                     for value in arg_values.iter().rev() {
                         saved_values.push(value.clone());
                     }
-                    saved_values.push(receiver_value.clone());
 
                     return Err((
                         RestoreValues(saved_values),
@@ -3572,19 +3552,17 @@ fn eval_built_in_call(
                 bytes.push(i as u8);
             }
 
-            let mut saved_values = vec![];
+            let mut saved_values = vec![receiver_value.clone()];
             for value in arg_values.iter().rev() {
                 saved_values.push(value.clone());
             }
-            saved_values.push(receiver_value.clone());
 
             let path_s = match unwrap_path(&arg_values[1], env) {
                 Ok(s) => s,
                 Err(msg) => {
-                    let mut saved_values = vec![];
+                    let mut saved_values = vec![receiver_value.clone()];
                     for value in arg_values.iter().rev() {
                         saved_values.push(value.clone());
-                        saved_values.push(receiver_value.clone());
                     }
                     return Err((
                         RestoreValues(saved_values),
@@ -3617,11 +3595,10 @@ fn eval_built_in_call(
         }
         BuiltInFunctionKind::FsCreateDir => {
             if env.enforce_sandbox {
-                let mut saved_values = vec![];
+                let mut saved_values = vec![receiver_value.clone()];
                 for value in arg_values.iter().rev() {
                     saved_values.push(value.clone());
                 }
-                saved_values.push(receiver_value.clone());
 
                 return Err((
                     RestoreValues(saved_values),
@@ -3643,10 +3620,9 @@ fn eval_built_in_call(
             let path_s = match unwrap_path(&arg_values[0], env) {
                 Ok(s) => s,
                 Err(message) => {
-                    let mut saved_values = vec![];
+                    let mut saved_values = vec![receiver_value.clone()];
                     for value in arg_values.iter().rev() {
                         saved_values.push(value.clone());
-                        saved_values.push(receiver_value.clone());
                     }
                     return Err((
                         RestoreValues(saved_values),
@@ -3678,11 +3654,10 @@ fn eval_built_in_call(
         }
         BuiltInFunctionKind::FsRemoveDir => {
             if env.enforce_sandbox {
-                let mut saved_values = vec![];
+                let mut saved_values = vec![receiver_value.clone()];
                 for value in arg_values.iter().rev() {
                     saved_values.push(value.clone());
                 }
-                saved_values.push(receiver_value.clone());
 
                 return Err((
                     RestoreValues(saved_values),
@@ -3704,10 +3679,9 @@ fn eval_built_in_call(
             let path_s = match unwrap_path(&arg_values[0], env) {
                 Ok(s) => s,
                 Err(message) => {
-                    let mut saved_values = vec![];
+                    let mut saved_values = vec![receiver_value.clone()];
                     for value in arg_values.iter().rev() {
                         saved_values.push(value.clone());
-                        saved_values.push(receiver_value.clone());
                     }
                     return Err((
                         RestoreValues(saved_values),
@@ -3739,11 +3713,10 @@ fn eval_built_in_call(
         }
         BuiltInFunctionKind::FsCopyFile => {
             if env.enforce_sandbox {
-                let mut saved_values = vec![];
+                let mut saved_values = vec![receiver_value.clone()];
                 for value in arg_values.iter().rev() {
                     saved_values.push(value.clone());
                 }
-                saved_values.push(receiver_value.clone());
 
                 return Err((
                     RestoreValues(saved_values),
@@ -3765,10 +3738,9 @@ fn eval_built_in_call(
             let src_path_s = match unwrap_path(&arg_values[0], env) {
                 Ok(s) => s,
                 Err(msg) => {
-                    let mut saved_values = vec![];
+                    let mut saved_values = vec![receiver_value.clone()];
                     for value in arg_values.iter().rev() {
                         saved_values.push(value.clone());
-                        saved_values.push(receiver_value.clone());
                     }
                     return Err((
                         RestoreValues(saved_values),
@@ -3783,10 +3755,9 @@ fn eval_built_in_call(
             let dest_path_s = match unwrap_path(&arg_values[1], env) {
                 Ok(s) => s,
                 Err(msg) => {
-                    let mut saved_values = vec![];
+                    let mut saved_values = vec![receiver_value.clone()];
                     for value in arg_values.iter().rev() {
                         saved_values.push(value.clone());
-                        saved_values.push(receiver_value.clone());
                     }
                     return Err((
                         RestoreValues(saved_values),
@@ -3824,11 +3795,10 @@ fn eval_built_in_call(
         }
         BuiltInFunctionKind::FsReadFile => {
             if env.enforce_sandbox {
-                let mut saved_values = vec![];
+                let mut saved_values = vec![receiver_value.clone()];
                 for value in arg_values.iter().rev() {
                     saved_values.push(value.clone());
                 }
-                saved_values.push(receiver_value.clone());
 
                 return Err((
                     RestoreValues(saved_values),
@@ -3850,10 +3820,9 @@ fn eval_built_in_call(
             let path_s = match unwrap_path(&arg_values[0], env) {
                 Ok(s) => s,
                 Err(msg) => {
-                    let mut saved_values = vec![];
+                    let mut saved_values = vec![receiver_value.clone()];
                     for value in arg_values.iter().rev() {
                         saved_values.push(value.clone());
-                        saved_values.push(receiver_value.clone());
                     }
                     return Err((
                         RestoreValues(saved_values),
@@ -3899,11 +3868,10 @@ fn eval_built_in_call(
         }
         BuiltInFunctionKind::FsReadFileBytes => {
             if env.enforce_sandbox {
-                let mut saved_values = vec![];
+                let mut saved_values = vec![receiver_value.clone()];
                 for value in arg_values.iter().rev() {
                     saved_values.push(value.clone());
                 }
-                saved_values.push(receiver_value.clone());
 
                 return Err((
                     RestoreValues(saved_values),
@@ -3925,10 +3893,9 @@ fn eval_built_in_call(
             let path_s = match unwrap_path(&arg_values[0], env) {
                 Ok(s) => s,
                 Err(msg) => {
-                    let mut saved_values = vec![];
+                    let mut saved_values = vec![receiver_value.clone()];
                     for value in arg_values.iter().rev() {
                         saved_values.push(value.clone());
-                        saved_values.push(receiver_value.clone());
                     }
                     return Err((
                         RestoreValues(saved_values),
@@ -3983,11 +3950,10 @@ fn eval_built_in_call(
         }
         BuiltInFunctionKind::FsRemoveFile => {
             if env.enforce_sandbox {
-                let mut saved_values = vec![];
+                let mut saved_values = vec![receiver_value.clone()];
                 for value in arg_values.iter().rev() {
                     saved_values.push(value.clone());
                 }
-                saved_values.push(receiver_value.clone());
 
                 return Err((
                     RestoreValues(saved_values),
@@ -4009,10 +3975,9 @@ fn eval_built_in_call(
             let path_s = match unwrap_path(&arg_values[0], env) {
                 Ok(s) => s,
                 Err(msg) => {
-                    let mut saved_values = vec![];
+                    let mut saved_values = vec![receiver_value.clone()];
                     for value in arg_values.iter().rev() {
                         saved_values.push(value.clone());
-                        saved_values.push(receiver_value.clone());
                     }
                     return Err((
                         RestoreValues(saved_values),
@@ -4281,11 +4246,10 @@ fn eval_built_in_call(
             )?;
 
             let Value_::Namespace { ns_info, .. } = arg_values[0].as_ref() else {
-                let mut saved_values = vec![];
+                let mut saved_values = vec![receiver_value.clone()];
                 for value in arg_values.iter().rev() {
                     saved_values.push(value.clone());
                 }
-                saved_values.push(receiver_value.clone());
 
                 let message = format_type_error(
                     &TypeName {
@@ -4785,11 +4749,10 @@ fn eval_call(
             }
         }
         _ => {
-            let mut saved_values = vec![];
+            let mut saved_values = vec![receiver_value.clone()];
             for value in arg_values.iter().rev() {
                 saved_values.push(value.clone());
             }
-            saved_values.push(receiver_value.clone());
 
             let message = format_type_error(
                 &TypeName {
@@ -5231,11 +5194,10 @@ fn eval_built_in_method_call(
                 arg_values,
             )?;
 
-            let mut saved_values = vec![];
+            let mut saved_values = vec![receiver_value.clone()];
             for value in arg_values.iter().rev() {
                 saved_values.push(value.clone());
             }
-            saved_values.push(receiver_value.clone());
 
             let expected_key =
                 check_string(&arg_values[0], &arg_positions[0], saved_values.clone(), env)?;
@@ -5309,11 +5271,10 @@ fn eval_built_in_method_call(
                     }
                 }
                 _ => {
-                    let mut saved_values = vec![];
+                    let mut saved_values = vec![receiver_value.clone()];
                     for value in arg_values.iter().rev() {
                         saved_values.push(value.clone());
                     }
-                    saved_values.push(receiver_value.clone());
 
                     return Err((
                         RestoreValues(saved_values),
@@ -5343,11 +5304,10 @@ fn eval_built_in_method_call(
                 arg_values,
             )?;
 
-            let mut saved_values = vec![];
+            let mut saved_values = vec![receiver_value.clone()];
             for value in arg_values.iter().rev() {
                 saved_values.push(value.clone());
             }
-            saved_values.push(receiver_value.clone());
 
             let key_to_remove =
                 check_string(&arg_values[0], &arg_positions[0], saved_values.clone(), env)?;
@@ -5392,11 +5352,10 @@ fn eval_built_in_method_call(
                 arg_values,
             )?;
 
-            let mut saved_values = vec![];
+            let mut saved_values = vec![receiver_value.clone()];
             for value in arg_values.iter().rev() {
                 saved_values.push(value.clone());
             }
-            saved_values.push(receiver_value.clone());
 
             let key_to_insert =
                 check_string(&arg_values[0], &arg_positions[0], saved_values.clone(), env)?;
@@ -5450,11 +5409,10 @@ fn eval_built_in_method_call(
                     }
                 }
                 _ => {
-                    let mut saved_values = vec![];
+                    let mut saved_values = vec![receiver_value.clone()];
                     for value in arg_values.iter().rev() {
                         saved_values.push(value.clone());
                     }
-                    saved_values.push(receiver_value.clone());
 
                     return Err((
                         RestoreValues(saved_values),
@@ -5491,11 +5449,10 @@ fn eval_built_in_method_call(
                     }
                 }
                 _ => {
-                    let mut saved_values = vec![];
+                    let mut saved_values = vec![receiver_value.clone()];
                     for value in arg_values.iter().rev() {
                         saved_values.push(value.clone());
                     }
-                    saved_values.push(receiver_value.clone());
 
                     return Err((
                         RestoreValues(saved_values),
@@ -5532,11 +5489,10 @@ fn eval_built_in_method_call(
                     }
                 }
                 _ => {
-                    let mut saved_values = vec![];
+                    let mut saved_values = vec![receiver_value.clone()];
                     for value in arg_values.iter().rev() {
                         saved_values.push(value.clone());
                     }
-                    saved_values.push(receiver_value.clone());
 
                     return Err((
                         RestoreValues(saved_values),
@@ -5580,11 +5536,10 @@ fn eval_built_in_method_call(
                     }
                 }
                 _ => {
-                    let mut saved_values = vec![];
+                    let mut saved_values = vec![receiver_value.clone()];
                     for value in arg_values.iter().rev() {
                         saved_values.push(value.clone());
                     }
-                    saved_values.push(receiver_value.clone());
 
                     return Err((
                         RestoreValues(saved_values),
@@ -5630,11 +5585,10 @@ fn eval_built_in_method_call(
                     }
                 }
                 _ => {
-                    let mut saved_values = vec![];
+                    let mut saved_values = vec![receiver_value.clone()];
                     for value in arg_values.iter().rev() {
                         saved_values.push(value.clone());
                     }
-                    saved_values.push(receiver_value.clone());
 
                     return Err((
                         RestoreValues(saved_values),
@@ -5677,11 +5631,10 @@ fn eval_built_in_method_call(
                     }
                 }
                 (_, Value_::Int(_)) => {
-                    let mut saved_values = vec![];
+                    let mut saved_values = vec![receiver_value.clone()];
                     for value in arg_values.iter().rev() {
                         saved_values.push(value.clone());
                     }
-                    saved_values.push(receiver_value.clone());
 
                     return Err((
                         RestoreValues(saved_values),
@@ -5698,11 +5651,10 @@ fn eval_built_in_method_call(
                     ));
                 }
                 (_, _) => {
-                    let mut saved_values = vec![];
+                    let mut saved_values = vec![receiver_value.clone()];
                     for value in arg_values.iter().rev() {
                         saved_values.push(value.clone());
                     }
-                    saved_values.push(receiver_value.clone());
 
                     return Err((
                         RestoreValues(saved_values),
@@ -5737,11 +5689,10 @@ fn eval_built_in_method_call(
                     }
                 }
                 _ => {
-                    let mut saved_values = vec![];
+                    let mut saved_values = vec![receiver_value.clone()];
                     for value in arg_values.iter().rev() {
                         saved_values.push(value.clone());
                     }
-                    saved_values.push(receiver_value.clone());
 
                     return Err((
                         RestoreValues(saved_values),
@@ -5774,11 +5725,10 @@ fn eval_built_in_method_call(
             let (items, elem_type) = match receiver_value.as_ref() {
                 Value_::List { items, elem_type } => (items, elem_type),
                 _ => {
-                    let mut saved_values = vec![];
+                    let mut saved_values = vec![receiver_value.clone()];
                     for value in arg_values.iter().rev() {
                         saved_values.push(value.clone());
                     }
-                    saved_values.push(receiver_value.clone());
 
                     return Err((
                         RestoreValues(saved_values),
@@ -5799,11 +5749,10 @@ fn eval_built_in_method_call(
             let i_arg = match arg_values[0].as_ref() {
                 Value_::Int(i) => *i,
                 _ => {
-                    let mut saved_values = vec![];
+                    let mut saved_values = vec![receiver_value.clone()];
                     for value in arg_values.iter().rev() {
                         saved_values.push(value.clone());
                     }
-                    saved_values.push(receiver_value.clone());
 
                     return Err((
                         RestoreValues(saved_values),
@@ -5821,11 +5770,10 @@ fn eval_built_in_method_call(
             let j_arg = match arg_values[1].as_ref() {
                 Value_::Int(j) => *j,
                 _ => {
-                    let mut saved_values = vec![];
+                    let mut saved_values = vec![receiver_value.clone()];
                     for value in arg_values.iter().rev() {
                         saved_values.push(value.clone());
                     }
-                    saved_values.push(receiver_value.clone());
 
                     return Err((
                         RestoreValues(saved_values),
@@ -5863,11 +5811,10 @@ fn eval_built_in_method_call(
         }
         BuiltInMethodKind::PathExists => {
             if env.enforce_sandbox {
-                let mut saved_values = vec![];
+                let mut saved_values = vec![receiver_value.clone()];
                 for value in arg_values.iter().rev() {
                     saved_values.push(value.clone());
                 }
-                saved_values.push(receiver_value.clone());
 
                 return Err((
                     RestoreValues(saved_values),
@@ -5889,10 +5836,9 @@ fn eval_built_in_method_call(
             let path_s = match unwrap_path(receiver_value, env) {
                 Ok(s) => s,
                 Err(msg) => {
-                    let mut saved_values = vec![];
+                    let mut saved_values = vec![receiver_value.clone()];
                     for value in arg_values.iter().rev() {
                         saved_values.push(value.clone());
-                        saved_values.push(receiver_value.clone());
                     }
                     return Err((
                         RestoreValues(saved_values),
@@ -5916,11 +5862,10 @@ fn eval_built_in_method_call(
         }
         BuiltInMethodKind::PathInfo => {
             if env.enforce_sandbox {
-                let mut saved_values = vec![];
+                let mut saved_values = vec![receiver_value.clone()];
                 for value in arg_values.iter().rev() {
                     saved_values.push(value.clone());
                 }
-                saved_values.push(receiver_value.clone());
 
                 return Err((
                     RestoreValues(saved_values),
@@ -5942,10 +5887,9 @@ fn eval_built_in_method_call(
             let path_s = match unwrap_path(receiver_value, env) {
                 Ok(s) => s,
                 Err(msg) => {
-                    let mut saved_values = vec![];
+                    let mut saved_values = vec![receiver_value.clone()];
                     for value in arg_values.iter().rev() {
                         saved_values.push(value.clone());
-                        saved_values.push(receiver_value.clone());
                     }
                     return Err((
                         RestoreValues(saved_values),
@@ -6034,11 +5978,10 @@ fn eval_built_in_method_call(
                 arg_values,
             )?;
 
-            let mut saved_values = vec![];
+            let mut saved_values = vec![receiver_value.clone()];
             for value in arg_values.iter().rev() {
                 saved_values.push(value.clone());
             }
-            saved_values.push(receiver_value.clone());
 
             let s = check_string(receiver_value, receiver_pos, saved_values, env)?;
             let value = match s.parse::<i64>() {
@@ -6062,11 +6005,10 @@ fn eval_built_in_method_call(
                 arg_values,
             )?;
 
-            let mut saved_values = vec![];
+            let mut saved_values = vec![receiver_value.clone()];
             for value in arg_values.iter().rev() {
                 saved_values.push(value.clone());
             }
-            saved_values.push(receiver_value.clone());
 
             let s = check_string(receiver_value, receiver_pos, saved_values, env)?;
             let mut items = rpds::Vector::new();
@@ -6094,11 +6036,10 @@ fn eval_built_in_method_call(
                 arg_values,
             )?;
 
-            let mut saved_values = vec![];
+            let mut saved_values = vec![receiver_value.clone()];
             for value in arg_values.iter().rev() {
                 saved_values.push(value.clone());
             }
-            saved_values.push(receiver_value.clone());
 
             let receiver_s = check_string(receiver_value, receiver_pos, saved_values.clone(), env)?;
             let arg_s = check_string(&arg_values[0], &arg_positions[0], saved_values, env)?;
@@ -6129,11 +6070,10 @@ fn eval_built_in_method_call(
                 arg_values,
             )?;
 
-            let mut saved_values = vec![];
+            let mut saved_values = vec![receiver_value.clone()];
             for value in arg_values.iter().rev() {
                 saved_values.push(value.clone());
             }
-            saved_values.push(receiver_value.clone());
 
             let receiver_s = check_string(receiver_value, receiver_pos, saved_values.clone(), env)?;
             let arg_s = check_string(&arg_values[0], &arg_positions[0], saved_values, env)?;
@@ -6155,11 +6095,10 @@ fn eval_built_in_method_call(
                 arg_values,
             )?;
 
-            let mut saved_values = vec![];
+            let mut saved_values = vec![receiver_value.clone()];
             for value in arg_values.iter().rev() {
                 saved_values.push(value.clone());
             }
-            saved_values.push(receiver_value.clone());
 
             let receiver_s = check_string(receiver_value, receiver_pos, saved_values.clone(), env)?;
             let arg_s = check_string(&arg_values[0], &arg_positions[0], saved_values, env)?;
@@ -6181,11 +6120,10 @@ fn eval_built_in_method_call(
                 arg_values,
             )?;
 
-            let mut saved_values = vec![];
+            let mut saved_values = vec![receiver_value.clone()];
             for value in arg_values.iter().rev() {
                 saved_values.push(value.clone());
             }
-            saved_values.push(receiver_value.clone());
 
             let receiver_s = check_string(receiver_value, receiver_pos, saved_values.clone(), env)?;
 
@@ -6242,11 +6180,10 @@ fn eval_built_in_method_call(
                 arg_values,
             )?;
 
-            let mut saved_values = vec![];
+            let mut saved_values = vec![receiver_value.clone()];
             for value in arg_values.iter().rev() {
                 saved_values.push(value.clone());
             }
-            saved_values.push(receiver_value.clone());
 
             let s = check_string(receiver_value, receiver_pos, saved_values, env)?;
             if expr_value_is_used {
@@ -6265,11 +6202,10 @@ fn eval_built_in_method_call(
                 arg_values,
             )?;
 
-            let mut saved_values = vec![];
+            let mut saved_values = vec![receiver_value.clone()];
             for value in arg_values.iter().rev() {
                 saved_values.push(value.clone());
             }
-            saved_values.push(receiver_value.clone());
 
             let s = check_string(receiver_value, receiver_pos, saved_values, env)?;
             let lines = s
@@ -6303,21 +6239,19 @@ fn eval_built_in_method_call(
                 arg_values,
             )?;
 
-            let mut saved_values = vec![];
+            let mut saved_values = vec![receiver_value.clone()];
             for value in arg_values.iter().rev() {
                 saved_values.push(value.clone());
             }
-            saved_values.push(receiver_value.clone());
 
             let s_arg = check_string(receiver_value, receiver_pos, saved_values.clone(), env)?;
             let from_arg = match arg_values[0].as_ref() {
                 Value_::Int(i) => i,
                 _ => {
-                    let mut saved_values = vec![];
+                    let mut saved_values = vec![receiver_value.clone()];
                     for value in arg_values.iter().rev() {
                         saved_values.push(value.clone());
                     }
-                    saved_values.push(receiver_value.clone());
 
                     return Err((
                         RestoreValues(saved_values),
@@ -6335,11 +6269,10 @@ fn eval_built_in_method_call(
             let to_arg = match arg_values[1].as_ref() {
                 Value_::Int(i) => i,
                 _ => {
-                    let mut saved_values = vec![];
+                    let mut saved_values = vec![receiver_value.clone()];
                     for value in arg_values.iter().rev() {
                         saved_values.push(value.clone());
                     }
-                    saved_values.push(receiver_value.clone());
 
                     return Err((
                         RestoreValues(saved_values),
@@ -6356,11 +6289,10 @@ fn eval_built_in_method_call(
             };
 
             if *from_arg < 0 {
-                let mut saved_values = vec![];
+                let mut saved_values = vec![receiver_value.clone()];
                 for value in arg_values.iter().rev() {
                     saved_values.push(value.clone());
                 }
-                saved_values.push(receiver_value.clone());
 
                 return Err((
                     RestoreValues(saved_values),
@@ -6376,11 +6308,10 @@ fn eval_built_in_method_call(
             }
 
             if from_arg > to_arg {
-                let mut saved_values = vec![];
+                let mut saved_values = vec![receiver_value.clone()];
                 for value in arg_values.iter().rev() {
                     saved_values.push(value.clone());
                 }
-                saved_values.push(receiver_value.clone());
 
                 let s_len = s_arg.chars().count();
                 return Err((
